@@ -332,6 +332,8 @@ fn run_single_program(
                 // child processes need to handle ctrl-Z
                 libc::signal(libc::SIGTSTP, libc::SIG_DFL);
                 libc::signal(libc::SIGQUIT, libc::SIG_DFL);
+                // the interactive shell ignores ctrl-C; its jobs must not
+                libc::signal(libc::SIGINT, libc::SIG_DFL);
             }
 
             // pipes on the left side (0..idx_cmd-1, and the write end of
